@@ -279,7 +279,15 @@ rfc1035NameUnpack(const char *buf, size_t sz, unsigned int *off, unsigned short 
                 RFC1035_UNPACK_DEBUG;
                 return 1;
             }
-            return rfc1035NameUnpack(buf, sz, &ptr, rdlength, name + no, ns - no, rdepth + 1);
+            unsigned short sub = 0; /* label octets found behind the pointer */
+            if (rfc1035NameUnpack(buf, sz, &ptr, &sub, name + no, ns - no, rdepth + 1))
+                return 1;
+            if (rdlength)
+                *rdlength += sub;
+            /* the pointer led to the root label only: drop the '.' appended after our last label */
+            if (no && !sub)
+                *(name + no - 1) = '\0';
+            return 0;
         } else if (c > RFC1035_MAXLABELSZ) {
             /*
              * "(The 10 and 01 combinations are reserved for future use.)"
